@@ -88,15 +88,14 @@ def values (g : GL) : List Val := g.content.allValues
 /-- `gl.contains(value)` -/
 def contains (g : GL) (a : Arg) : Bool := g.values.any (isEqual a)
 
-/-- `gl.get_group(value)`: first key (dict order) with an `is_equal` member — provided
-    `any(found)`, i.e. provided some found key is *truthy*; otherwise the value itself. -/
+/-- `gl.get_group(value)`: first key (dict order) with an `is_equal` member, else the value
+    itself.  (Before the repair `fix: GroupedList.get_group …` the code tested `any(found)`, the
+    truthiness of the found leaders, so a member of a group led by `0` or `""` was returned
+    unchanged; the witness is kept in `corpus/C13/`.) -/
 def getGroup (g : GL) (a : Arg) : Arg :=
-  let found := (g.content.filter (fun kv => kv.2.any (isEqual a))).map (·.1)
-  if found.any Val.truthy then
-    match found with
-    | k :: _ => .val k
-    | [] => a
-  else a
+  match (g.content.filter (fun kv => kv.2.any (isEqual a))).map (·.1) with
+  | k :: _ => .val k
+  | [] => a
 
 /-- `list.remove(v)` then `content.pop(v)` -/
 def remove (g : GL) (v : Val) : GL × Option Err :=
